@@ -21,6 +21,7 @@
 //!   {"a":"Remove","p":1}                              Worksheet::remove_cell (logs "retb")
 //!   {"a":"CopyValue","p":src,"q":dst}                 get_cell_value(src).clone() -> get_cell_mut(dst).set_cell_value
 //!   {"a":"CopyCell","p":src,"q":dst}                  get_cell(src).clone(), coordinate rewritten, Worksheet::set_cell
+//!                                                     (no source cell: nothing is done, "ret" = "nocell")
 //!   {"a":"SaveLoad","w":"std"|"light"}                write_writer(_light) into memory, read_reader(.., true)
 //! Every step yields one event: the step's fields, "tc" (the characters of t), "ret"/"retb", "outcome", "msg" and
 //! "obs" = for both positions the projection through every getter in scope, at three levels:
@@ -281,9 +282,14 @@ fn apply(ws: &mut Worksheet, st: &Value, e: &mut Value) {
         }
         "CopyCell" => {
             let q = u(st, "q");
-            let mut c = ws.get_cell((p, 1u32)).expect("CopyCell: source cell exists").clone();
-            c.get_coordinate_mut().set_col_num(q);
-            ws.set_cell(c);
+            // (a copy needs a source: without one the step does nothing and says so)
+            match ws.get_cell((p, 1u32)).cloned() {
+                Some(mut c) => {
+                    c.get_coordinate_mut().set_col_num(q);
+                    ws.set_cell(c);
+                }
+                None => e["ret"] = json!("nocell"),
+            }
         }
         _ => match s(st, "via") {
             "cell" => set_on_cell(ws.get_cell_mut((p, 1u32)), st),
